@@ -177,6 +177,12 @@ pub fn npz_case(rng: &mut Rng, case_no: u64) -> String {
             }
             _ => {}
         }
+        // now and then a second activation entry after the same linear layer (a clipped ReLU, say): it applies to the
+        // neurons of that linear layer as well
+        if rng.chance(1, 4) {
+            entries.push((name(idx, *rng.pick(&["relu", "hard_tanh", "hard_sigmoid"])), None));
+            idx += 1;
+        }
     }
     if rng.chance(1, 3) {
         entries.push(("layers".to_string(), None));
